@@ -832,6 +832,9 @@ func (c *ExecCtx) havocHeaps(st *State, fn *types.Func, recv *Val, args []Val) {
 		if strings.HasPrefix(h, "C.cap") {
 			continue
 		}
+		if u.eng.tm.immutableHeaps[h] {
+			continue // field written only by constructors (structural check)
+		}
 		if c.heapProtected(st, h) {
 			continue
 		}
@@ -975,7 +978,7 @@ func (c *ExecCtx) dynamicCall2(st *State, fv Val, sig *types.Signature, args []V
 			return c.inlineLit(st, cl, args, call.Pos())
 		}
 	}
-	if c.sweepOn() && fv.T.Sort == SInt {
+	if c.sweepOn() && fv.T.Sort == SInt && !(fv.T.Op == "sym" && u.captured[fv.T.Name]) {
 		u.oblige(st, "fncall", Ne(fv.T, IntLit(0)), call.Pos(), "call of nil func value")
 	}
 	// role contract for func-typed parameters/fields?
@@ -1461,7 +1464,8 @@ func (c *ExecCtx) applyRole(st *State, fs *FuncSpec, sig *types.Signature, args 
 	u := c.u
 	u.eng.externUsed["role contract (assumed): "+shortKey(fs.Key)] = true
 	binds := c.bindHeader(fs, nil, args)
-	env := &SpecEnv{c: c, fs: fs, binds: binds}
+	env := c.newEnv(binds, pos) // captured variables of the enclosing function are visible
+	env.fs = fs
 	pre := st.fork()
 	for _, cl := range fs.Requires {
 		t := env.evalBool(st, pre, cl.Expr, cl.Where)
